@@ -308,7 +308,7 @@ static void run_C10(const Args &a, long cs) {
 	Rng r(a.seed, "C10", cs);
 	Problem p = gen_problem(r, 3, a.tier == "thorough" ? 400 : 150, true);
 	uint32_t monodim = (uint32_t)r.below(p.nd);
-	int ykind = (int)r.below(10); // 6 flat zero then rise, 7 the same with a 1e-10 downward drift/ripple, 8 all zero, 9 tiny magnitudes;  0 noisy increasing, 1 decreasing, 2 oscillating, 3 constant, 4 gaussian noise, 5 generated from a monotone spline (constraint inactive)
+	int ykind = (int)r.below(12); // 10/11: steeply increasing along the monotonic dimension, modulated along the others, with / without smoothing there (constraint inactive); 6 flat zero then rise, 7 the same with a 1e-10 downward drift/ripple, 8 all zero, 9 tiny magnitudes;  0 noisy increasing, 1 decreasing, 2 oscillating, 3 constant, 4 gaussian noise, 5 generated from a monotone spline (constraint inactive)
 	std::vector<float> gen_coef;
 	if (ykind == 5 && p.ntot > 120) ykind = 0;
 	if (ykind == 5) {
@@ -330,12 +330,15 @@ static void run_C10(const Args &a, long cs) {
 			case 7: v = (x < xm ? 0.0 : std::pow(x - xm, (double)p.ord[monodim])) - 2e-10 * (x - km[0]) / span + 1e-11 * std::sin(40 * x); break;
 			case 8: v = 0.0; break;
 			case 9: v = 1e-20 * (x - km[0]) + 1e-22 * r.normal(); break;
+			case 10: case 11: { double m = 2; for (int e = 0; e < p.nd; e++) if ((uint32_t)e != monodim) m *= 2 + std::sin(3 * p.co[e][p.idx[k][e]] * (e + 1)); v = (1 + 5 * (x - km[0]) / span) * m; break; }
 			default: v = r.normal(); }
 			if (ykind >= 6) p.w[k] = 1.0;
 			p.y[k] = v;
 		}
 	}
-	static const char *yn[] = {"noisy-increasing", "decreasing", "oscillating", "constant", "gaussian-noise", "from-monotone-spline", "zero-then-rise", "zero-then-rise+1e-10-drift", "all-zero", "tiny-magnitude"};
+	static const char *yn[] = {"noisy-increasing", "decreasing", "oscillating", "constant", "gaussian-noise", "from-monotone-spline", "zero-then-rise", "zero-then-rise+1e-10-drift", "all-zero", "tiny-magnitude", "steep-increasing-modulated(smoothing-in-other-dimensions)", "steep-increasing-modulated(no-smoothing)"};
+	if (ykind == 10) { for (int e = 0; e < p.nd; e++) p.lam[e] = (uint32_t)e == monodim ? (r.coin(0.5) ? 0.0 : 1e-3) : std::pow(10.0, (double)r.range(-2, 1)); if (p.shared_lam()) for (auto &l : p.lam) l = p.lam[0]; for (auto &w : p.w) w = 1.0; }
+	if (ykind == 11) { for (auto &l : p.lam) l = 0; for (auto &w : p.w) w = 1.0; }
 	if (ykind >= 6 && ykind <= 7) { for (auto &l : p.lam) l = r.coin(0.7) ? 0.0 : 1e-12; if (p.shared_lam()) for (auto &l : p.lam) l = p.lam[0]; } // (a shared smoothing argument applies to every dimension)
 	p.kind += std::string("/") + yn[ykind];
 	count("problems"); count("ndim:" + std::to_string(p.nd)); count(std::string("data:") + yn[ykind]); count("monodim:" + std::to_string(monodim)); count("order-along-monodim:" + std::to_string(p.ord[monodim]));
@@ -394,7 +397,7 @@ static void run_C10(const Args &a, long cs) {
 			if (!(rv.S >= -64 * ldexpl(1, -24) * rv.M)) viol("C10:fit(monodim):negative-derivative-along-monotonic-dimension", "{\"derivative\":" + jnum((double)rv.S) + ",\"M\":" + jnum((double)rv.M) + ",\"x\":" + jarrd(x) + ",\"problem\":" + prob_brief(p) + "}");
 		}
 		// (iii) inactive constraint => same coefficients as the unconstrained fit
-		if (ykind == 5) {
+		if (ykind == 5 || ykind == 10 || ykind == 11) {
 			Table U; phase_log("fit(unconstrained twin)");
 			try { U.fit(*data, p.w, p.co, p.ord, p.kn, lam, por, Table::no_monodim, false); } catch (std::exception &e) { note("unconstrained-twin-threw"); }
 			if (U.get_ndim()) {
@@ -403,7 +406,7 @@ static void run_C10(const Args &a, long cs) {
 				if (inactive && pivot_T < 1e-4) count("inactive-comparisons-skipped(ill-conditioned)");
 				else if (inactive) {
 					double worst = 0; for (size_t a2 = 0; a2 < p.ntot; a2++) worst = std::max(worst, std::fabs((double)cu[a2] - c[a2]));
-					count("inactive-constraint-comparisons");
+					count("inactive-constraint-comparisons"); if (ykind == 10) count("inactive-constraint-comparisons-with-smoothing-in-other-dimensions");
 					if (worst > 2e-3 * (cmax + 1)) viol("C10:fit(monodim):differs-from-unconstrained-fit-although-constraint-inactive", "{\"max_coefficient_difference\":" + jnum(worst) + ",\"scale\":" + jnum(cmax) + ",\"problem\":" + prob_brief(p) + "}");
 				} else count("twin-not-strictly-monotone(skipped)");
 			}
